@@ -43,9 +43,21 @@ Proof.
       unfold gas_ok; cbn [resume_create resume_call f_gas]; lia.
 Qed.
 
+Lemma run_precompile_gas : forall t wok ws args g, 0 <= g ->
+    match run_precompile t wok ws args g with
+    | SImmediate _ gb _ _ => 0 <= gb
+    | SFrame child _ => 0 <= f_gas child
+    | SUnsupported => True
+    end.
+Proof.
+  intros t wok ws args g Hg. unfold run_precompile. destruct (t =? 4); [|exact I].
+  match goal with |- context [if ?b then _ else _] => destruct b eqn:E end; [lia|].
+  apply Z.ltb_ge in E. lia.
+Qed.
+
 Lemma start_call_gas : forall k d w ps pc pv pst t args g v ro rs, 0 <= g ->
     match start_call k d w ps pc pv pst t args g v ro rs with
-    | SImmediate _ gb _ => 0 <= gb
+    | SImmediate _ gb _ _ => 0 <= gb
     | SFrame child _ => 0 <= f_gas child
     | SUnsupported => True
     end.
@@ -54,11 +66,12 @@ Proof.
   destruct (call_create_depth <? d); [exact Hg|].
   destruct k; repeat match goal with
     | |- context [if ?b then _ else _] => destruct b
-    end; cbn [new_frame f_gas]; auto.
+    end; cbn [new_frame f_gas]; auto; apply run_precompile_gas; exact Hg.
 Qed.
+
 Lemma start_create_gas : forall d w ps pst a init g v, 0 <= g ->
     match start_create d w ps pst a init g v with
-    | SImmediate _ gb _ => 0 <= gb
+    | SImmediate _ gb _ _ => 0 <= gb
     | SFrame child _ => 0 <= f_gas child
     | SUnsupported => True
     end.
@@ -101,14 +114,14 @@ Proof.
   - (* CREATE *)
     match goal with |- context [start_create ?d ?ww ?a ?b ?addr ?c ?g ?v] =>
       pose proof (start_create_gas d ww a b addr c g v) as Hs end.
-    match type of Hs with _ -> match ?x with _ => _ end => destruct x as [o gb w'|child w'|] end;
+    match type of Hs with _ -> match ?x with _ => _ end => destruct x as [o gb w' iret|child w'|] end;
       (split; [|exact I]); cbn [c_frames]; repeat constructor; auto; unfold gas_ok;
         cbn [resume_create set_gas set_stack f_gas]; try (assert (0 <= f_gas f - (f_gas f - f_gas f / 64)) by lia);
         try (specialize (Hs ltac:(lia))); lia.
   - (* CREATE2 *)
     match goal with |- context [start_create ?d ?ww ?a ?b ?addr ?c ?g ?v] =>
       pose proof (start_create_gas d ww a b addr c g v) as Hs end.
-    match type of Hs with _ -> match ?x with _ => _ end => destruct x as [o gb w'|child w'|] end;
+    match type of Hs with _ -> match ?x with _ => _ end => destruct x as [o gb w' iret|child w'|] end;
       (split; [|exact I]); cbn [c_frames]; repeat constructor; auto; unfold gas_ok;
         cbn [resume_create set_gas set_stack f_gas];
         try (specialize (Hs ltac:(lia))); lia.
@@ -116,7 +129,7 @@ Proof.
     specialize (Hcg k eq_refl).
     match goal with |- context [start_call ?k ?d ?ww ?a ?b ?c ?dd ?ee ?ff ?g ?hh ?ii ?jj] =>
       pose proof (start_call_gas k d ww a b c dd ee ff g hh ii jj) as Hs end.
-    match type of Hs with _ -> match ?x with _ => _ end => destruct x as [o gb w'|child w'|] end;
+    match type of Hs with _ -> match ?x with _ => _ end => destruct x as [o gb w' iret|child w'|] end;
       (split; [|exact I]); cbn [c_frames]; repeat constructor; auto; unfold gas_ok;
         cbn [resume_call set_stack f_gas];
         try (assert (Hs' := Hs ltac:(match goal with |- context [if ?b then _ else _] => destruct b end; lia)));
@@ -157,7 +170,7 @@ Lemma init_call_gas : forall e w t input g v, 0 <= g -> gas_inv (init_call e w t
 Proof.
   intros e w t input g v Hg. unfold init_call.
   pose proof (start_call_gas KCall 0 w (e_origin e) (e_origin e) 0 false t input g v 0 0 Hg) as Hs.
-  destruct (start_call KCall 0 w (e_origin e) (e_origin e) 0 false t input g v 0 0) as [o gb w'|child w'|].
+  destruct (start_call KCall 0 w (e_origin e) (e_origin e) 0 false t input g v 0 0) as [o gb w' iret|child w'|].
   - destruct o; split; cbn; auto.
   - split; cbn; auto.
   - split; cbn; auto.
@@ -167,7 +180,7 @@ Proof.
   intros e w init g v Hg. unfold init_create.
   match goal with |- context [start_create ?d ?ww ?a ?b ?addr ?cc ?gg ?vv] =>
     pose proof (start_create_gas d ww a b addr cc gg vv Hg) as Hs;
-    destruct (start_create d ww a b addr cc gg vv) as [o gb w'|child w'|] end; split; cbn; auto.
+    destruct (start_create d ww a b addr cc gg vv) as [o gb w' iret|child w'|] end; split; cbn; auto.
 Qed.
 
 (** reachable from a top-level call/creation that was given a non-negative amount of gas *)
